@@ -182,6 +182,13 @@ func (st *prodState) newRec(client string, actor, idx int, kind string, op plan.
 		val += strings.Repeat("x", n)
 	}
 	r := &kgo.Record{Topic: topicName(op.A), Partition: int32(op.B), Value: []byte(val), Key: []byte(fmt.Sprintf("k%d", idx%3))}
+	if pct := st.s.P.Knob("user_ts_pct", 0); pct > 0 {
+		// the application stamps records itself, not in order (event time)
+		x := mix64(st.s.P.Seed ^ uint64(actor)<<32 ^ uint64(idx)*0x9e3779b97f4a7c15)
+		if int64(x%100) < pct {
+			r.Timestamp = time.UnixMilli(1_700_000_000_000 + int64(x>>8%20000) - 10000)
+		}
+	}
 	p := &prec{id: len(st.recs), client: client, actor: actor, idx: idx, kind: kind, topic: r.Topic, part: r.Partition, val: val, size: len(val), rec: r, off: -1}
 	st.mu.Lock()
 	st.recs = append(st.recs, p)
